@@ -80,6 +80,51 @@ Theorem c19_unknown_list_shrinks_fixed :
 Proof. exact unknown_shrinks. Qed.
 Print Assumptions c19_unknown_list_shrinks_fixed.
 
+(* ---- the two halves of the repair, each for ALL strings ---- *)
+(* the needle discover returns is a contiguous piece of the upper-cased description (so contains() finds it) *)
+Theorem c19_needle_is_substring :
+  forall d n, suggest_needle d = Some n -> substr n (upper d).
+Proof. exact needle_substring. Qed.
+Print Assumptions c19_needle_is_substring.
+
+(* quote_needle (json.dumps, ensure_ascii=False): for every string the literal un-escapes (CPython rules) to that
+   string, and the whole match expression parses to contains(that string) *)
+Theorem c19_quote_roundtrip :
+  forall n, (forall rest, unesc UN (cmap json_char n ++ String DQ rest) = UOk n rest) /\
+            parse_expr ("contains(" ++ quote_fixed n ++ ")") = POk (ECall "contains" n).
+Proof. exact quote_roundtrip. Qed.
+Print Assumptions c19_quote_roundtrip.
+
+(* ---- beyond the ASCII case model: the same design for ANY case mapping [up] (Python's Unicode str.upper
+   included), ANY cleaning function, ANY word splitter, ANY name function with a loadable header.
+   The only facts used: the first word of an upper-cased text, upper-cased again, occurs in that text
+   (H_first; for str.upper it follows from "every character of an upper-cased character is a fixed point of
+   upper()", swept over all code points on every run) and up "" = "".  Nothing about the regexes, prefixes or
+   whitespace classes of clean_description is needed: the run-time check in suggest_needle carries the proof. *)
+Theorem c19_generic_needle_matches :
+  forall (up : string -> string) (wordsf : string -> list string) (cleanf : string -> string) (take_n : nat),
+    (forall s w t, wordsf (up s) = w :: t -> substr (up w) (up s)) -> up "" = "" ->
+    forall d, contains_g up (needle_g up wordsf cleanf take_n d) d = true.
+Proof. exact needle_generic. Qed.
+Print Assumptions c19_generic_needle_matches.
+
+Theorem c19_generic_rule_loads_and_matches :
+  forall (up : string -> string) (wordsf : string -> list string) (cleanf namef : string -> string) (take_n : nat),
+    (forall s w t, wordsf (up s) = w :: t -> substr (up w) (up s)) -> up "" = "" ->
+    (forall d, nm_ok (namef d) = true) ->
+    forall d neg,
+      parse_merchants (rule_text Fixed (namef d) (needle_g up wordsf cleanf take_n d) (tags_of neg))
+        = Loaded [the_rule (namef d) (needle_g up wordsf cleanf take_n d)]
+      /\ contains_g up (needle_g up wordsf cleanf take_n d) d = true.
+Proof. exact rule_generic. Qed.
+Print Assumptions c19_generic_rule_loads_and_matches.
+
+(* the modelled suggest_needle IS the instance up := ASCII upper, wordsf := words, cleanf := the modelled cleaning *)
+Theorem c19_model_is_generic_instance :
+  forall d, suggest_needle d = Some (needle_g upper words clean_fn pattern_take d).
+Proof. exact suggest_needle_is_instance. Qed.
+Print Assumptions c19_model_is_generic_instance.
+
 (* ======================================================================================= history
    The design before /repo commit f2d3c2b (v = Orig): suggest_pattern's REGEX text was wrapped in contains(),
    which is a literal substring test. Both full statements were false for it; what did hold is kept as the
@@ -136,6 +181,13 @@ Example c19_appended_example :
   end = ObsLoaded true /\
   name (rule_of d) = "Amazon".
 Proof. vm_compute. repeat split; reflexivity. Qed.
+(* the hypotheses of the generic theorems hold for the ASCII instance (and the conclusion is the concrete one) *)
+Example c19_generic_hypotheses_satisfiable :
+  (forall s w t, words (upper s) = w :: t -> substr (upper w) (upper s)) /\ upper "" = "" /\
+  (forall d, nm_ok (odflt (suggest_merchant_name d)) = true) /\
+  needle_g upper words clean_fn pattern_take "Maxi #12 Markt 12345 Koeln DE" = "MAXI" /\
+  suggest_needle "STORE #12X" = Some "STORE" /\ quote_fixed ("a""b\" ++ s1 LF) = """a\""b\\\n""".
+Proof. split; [exact ascii_first|]. split; [reflexivity|]. split; [exact ascii_name_ok|]. vm_compute. repeat split; reflexivity. Qed.
 Example c19_shrinks_hypothesis_satisfiable :
   let existing := [ {| name := "Netflix"; mexpr := ECall "contains" "NETFLIX"; category := "Fun" |} ] in
   matched no_re existing "Acme Foo" = Some false /\ matched no_re existing "ACME.COM" = Some false /\
